@@ -157,3 +157,36 @@ def brief(rec):
     if k == "U":
         return "Unit(%s)" % rec["sym"]
     return str(rec)[:120]
+
+
+def check_ctor_events(chk, w, rec, wid, strict_type=True):
+    """Invariants on every instance the constructor choke point produced
+    during one program (including intermediates inside the library):
+    amount is an exact rational type, the instance's type is its unit's
+    type, and -- for quantized units -- the amount is on the unit's grid."""
+    n = 0
+    for tname, usym, utype, nd, at in rec.get("ctor", []):
+        n += 1
+        bad = []
+        if at not in EXACT_TYPES:
+            bad.append("amount held as %s" % at)
+        if tname != utype:
+            bad.append("instance of %s carries a unit of %s" %
+                       (tname, utype))
+        u = w.units.get(usym)
+        if u is not None and nd[1] is not None:
+            if u.tname != utype and strict_type:
+                bad.append("unit %s belongs to %s in the model, to %s in "
+                           "the library" % (usym, u.tname, utype))
+            q = w.quantum_of(usym)
+            if q is not None:
+                chk.count("ctor events of quantized types")
+                if (Fraction(nd[0], nd[1]) / q).denominator != 1:
+                    bad.append("amount %s/%s %s is not a multiple of the "
+                               "quantum %s" % (nd[0], nd[1], usym, q))
+        if bad:
+            chk.violation("constructor monitor: %s(%s/%s %s): %s" %
+                          (tname, nd[0], nd[1], usym, "; ".join(bad)),
+                          dict(event=[tname, usym, utype, nd, at],
+                               world=wid), "ctor-invariant")
+    chk.count("ctor events checked", n)
